@@ -65,11 +65,23 @@ theorem gen_brms_mask {K : Type} [Num K] (lt : K → K → Bool) (flow fhigh : K
       = bandMask lt flow fhigh r P i j := by
   rfl
 
-/-- the integrator is looked up as `trapezoid` with `trapz` as the fallback (works on NumPy 1.x and 2.x);
-band edges given as periods are turned into frequencies by taking reciprocals -/
-theorem gen_brms_portable :
-    Generated.C13.brmsIntegratorPortable = true ∧ Generated.C13.brmsPeriodEdgesAreReciprocals = true := by
+/-- the integrator is looked up as `trapezoid` with `trapz` as the fallback (works on NumPy 1.x and 2.x) -/
+theorem gen_brms_portable : Generated.C13.brmsIntegratorPortable = true := by
   decide
+
+/-- the band `(flow, fhigh)` that `bandlimited_rms` ends up with, for every way of giving it (symbolic execution
+of the argument handling of the current source): periods are turned into frequencies by reciprocals, short
+period ↦ upper edge, long period ↦ lower edge; a missing lower edge is `0`, a missing upper edge is `r.max()` -/
+theorem gen_brms_band (a b dmax : Rat) :
+    Generated.C13.brmsBandPeriodLow a dmax = (0, 1 / a) ∧
+    Generated.C13.brmsBandPeriodHigh b dmax = (1 / b, dmax) ∧
+    Generated.C13.brmsBandPeriodBoth a b dmax = (1 / b, 1 / a) ∧
+    Generated.C13.brmsBandFreqLow a dmax = (a, dmax) ∧
+    Generated.C13.brmsBandFreqHigh b dmax = (0, b) ∧
+    Generated.C13.brmsBandFreqBoth a b dmax = (a, b) := by
+  refine ⟨?_, ?_, ?_, ?_, ?_, ?_⟩ <;>
+    simp only [Generated.C13.brmsBandPeriodLow, Generated.C13.brmsBandPeriodHigh, Generated.C13.brmsBandPeriodBoth,
+      Generated.C13.brmsBandFreqLow, Generated.C13.brmsBandFreqHigh, Generated.C13.brmsBandFreqBoth]
 
 /-- `render_synthetic_surface` multiplies the surface by `rms / z_rms`, where `z_rms` is `util.rms`
 (root mean square of the finite samples) of the already masked surface -/
@@ -78,6 +90,10 @@ theorem gen_synth_rescale (rho zrms z : ℝ) :
     Generated.C13.synthRmsOfMaskedSurfaceThenScale = true ∧ Generated.C13.rmsIsSqrtMeanSquareOfFiniteSamples = true := by
   refine ⟨?_, by decide, by decide⟩
   simp only [Generated.C13.synthRescale, Generated.C13.synthScale, rescale]
+
+/-- the sample spacing `Interferogram.psd()` stores on the spectrum is the step `1/(n dx)` of the x frequency axis -/
+theorem gen_ifg_psd_dx (dx m n : Rat) : Generated.C13.ifgPsdDx dx m n = 1 / (n * dx) := by
+  simp only [Generated.C13.ifgPsdDx, mul_comm]
 
 /-- the `Interferogram` methods hand their own data / spacing, and `psd.r` / `psd.data`, to the free functions -/
 theorem gen_methods_delegate :
